@@ -245,6 +245,21 @@ func c05OneSyncAtATime(c *core.Ctx) {
 	deferred, explicit := 0, 0
 	core.Instrs(fn, func(in ssa.Instruction) {
 		cc := core.CallOf(in)
+		// `defer func() { d.mutOperation.Unlock() }()`
+		if df, isDefer := in.(*ssa.Defer); isDefer {
+			if mc, ok := df.Call.Value.(*ssa.MakeClosure); ok {
+				if body, ok := mc.Fn.(*ssa.Function); ok {
+					core.Instrs(body, func(in2 ssa.Instruction) {
+						c2 := core.CallOf(in2)
+						if c2 != nil && c2.StaticCallee() != nil && c2.StaticCallee().Name() == "Unlock" && len(c2.Args) > 0 {
+							if fa, ok := c2.Args[0].(*ssa.FieldAddr); ok && core.FieldOfAddr(fa).Name() == "mutOperation" {
+								deferred++
+							}
+						}
+					})
+				}
+			}
+		}
 		if !isMut(cc) || cc.StaticCallee() == nil {
 			return
 		}
